@@ -277,7 +277,8 @@ META = {
             "Wyckoff positions, all normalizers) is checked with exact arithmetic against spglib's Hall database - "
             "labels, expression/matrix/constant agreement, orbit closure, normalizer shape, handedness, "
             "conjugation, metric preservation, induced letter permutations and closure (all in both tiers; thorough adds the rule self-validation on broken copies). The space is finite, so "
-            "enumeration is a proof relative to the reference; plus def-use provenance of the lookup keys.",
+            "enumeration is a proof relative to the reference; plus def-use provenance of the lookup keys."
+            " Also: the label getters are constant-folded over the 230 table values (e.g. the side-centring merge of get_bravais_lattice) and the application of the tabulated transformation is checked as x' = R x + t (affine normal form), since 'permutes the letters exactly as tabulated' is about what the code does with the entry.",
     "note": "trusted base: spglib's Hall database as the International Tables in the standard setting (lowest Hall "
             "number per group); CPython ast, fractions, numpy integer arithmetic; the checker itself. Floats in the "
             "table are taken as 8-digit roundings of multiples of 1/24.",
